@@ -7,8 +7,10 @@ Inductive vty :=
 | TTokOf (c : N)       (* a token of terminal column c (refinement used by the analysis, never emitted for Rust types) *)
 | TLoc                 (* usize (an @L / @R location) *)
 | TString              (* String *)
+| TQName               (* a String built by QualifiedName: identifiers joined by dots (refinement used by the analysis) *)
 | TErr                 (* ErrorRecovery *)
 | TOpt (t : vty)
+| TLoud (t : vty)      (* an Option that is None only after an Error diagnostic has been pushed (error recovery at item level) *)
 | TVec (t : vty)
 | TTuple (l : list vty)
 | TAst (name : string) (* ast::<name> *)
@@ -29,13 +31,13 @@ Proof. destruct a, b; cbn; intros H; try discriminate; try (apply N.eqb_eq in H;
 
 Section VtyInd.
   Variable P : vty -> Prop.
-  Hypotheses (HTok : P TTok) (HTokOf : forall c, P (TTokOf c)) (HLoc : P TLoc) (HString : P TString) (HErr : P TErr)
-             (HOpt : forall t, P t -> P (TOpt t)) (HVec : forall t, P t -> P (TVec t))
+  Hypotheses (HTok : P TTok) (HTokOf : forall c, P (TTokOf c)) (HLoc : P TLoc) (HString : P TString) (HQName : P TQName) (HErr : P TErr)
+             (HOpt : forall t, P t -> P (TOpt t)) (HLoud : forall t, P t -> P (TLoud t)) (HVec : forall t, P t -> P (TVec t))
              (HTuple : forall l, Forall P l -> P (TTuple l)) (HAst : forall n, P (TAst n)) (HKV : P TKV) (HBot : P TBot).
   Fixpoint vty_ind' (t : vty) : P t :=
     match t with
-    | TTok => HTok | TTokOf c => HTokOf c | TLoc => HLoc | TString => HString | TErr => HErr
-    | TOpt t' => HOpt t' (vty_ind' t') | TVec t' => HVec t' (vty_ind' t')
+    | TTok => HTok | TTokOf c => HTokOf c | TLoc => HLoc | TString => HString | TQName => HQName | TErr => HErr
+    | TOpt t' => HOpt t' (vty_ind' t') | TLoud t' => HLoud t' (vty_ind' t') | TVec t' => HVec t' (vty_ind' t')
     | TTuple l => HTuple l ((fix go (l : list vty) : Forall P l :=
                                match l with [] => Forall_nil P | x :: l' => Forall_cons x (vty_ind' x) (go l') end) l)
     | TAst n => HAst n | TKV => HKV | TBot => HBot
